@@ -301,7 +301,12 @@ def main(fd, verbose=0):
                     if verbose:
                         util.debug(f"[ResourceTracker] unlink {name}")
                 except Exception as e:
-                    warnings.warn(f"resource_tracker: {name}: {e!r}")
+                    # Reporting the failure must not abort the clean-up of the
+                    # remaining resources (warnings can be turned into errors).
+                    try:
+                        warnings.warn(f"resource_tracker: {name}: {e!r}")
+                    except Exception:
+                        pass
 
         for rtype, rtype_registry in registry.items():
             if rtype == "folder":
